@@ -4,7 +4,9 @@
 (b) the property on the real code (Mesher._Mesh_Get_Meshes, single process): every element / node has exactly one owner,
     a part = own elements + every element touching an owned node, global numbering and coordinates kept, reproducible;
     K, M and F assembled on a part alone = the global ones on the owned rows; owned-row energies and reactions summed over
-    the parts = the global ones; Mesh.Merge with return_mapping is the inverse bookkeeping."""
+    the parts = the global ones; Mesh.Merge with return_mapping is the inverse bookkeeping;
+    the same on meshes of some thousand elements split in 48-64 parts, and, at the level of the parts (owned nodes of a part = union over
+    the element types of the main dimension), on meshes holding two element types of the main dimension."""
 
 from __future__ import annotations
 
@@ -42,6 +44,146 @@ def build(et, N, size):
 
 def dense_rows(Asp, rows):
     return np.asarray(Asp.tocsr()[rows].todense())
+
+
+def mesh_big_tri(N, h):
+    return PartMesher(N).Mesh_2D(Domain(Point(0, 0), Point(10, 10), h), [], ElemType.TRI3)
+
+
+def mesh_big_quad(N, h):
+    return PartMesher(N).Mesh_2D(Domain(Point(0, 0), Point(10, 10), h), [], ElemType.QUAD4, isOrganised=True)
+
+
+def mesh_big_tetra(N, h):
+    return PartMesher(N).Mesh_Extrude(Domain(Point(0, 0), Point(4, 4), h), [], [0, 0, 4], [], ElemType.TETRA4)
+
+
+def mesh_tri_glued_to_recombined(N, h=2.5):
+    """a TRI3 square [0,10]^2 glued to a recombined square [10,20]x[0,10] (QUAD4 + the TRI3 the recombination leaves): one conforming mesh with two element types of the main dimension"""
+    import gmsh
+    m = Mesher()
+    m._Init_gmsh("occ")
+    m._Surfaces(Domain(Point(), Point(10, 10), h), [])
+    r2 = m._factory.addRectangle(10, 0, 0, 10, 10)
+    m._factory.fragment([(2, 1)], [(2, r2)])
+    m._factory.synchronize()
+    gmsh.model.mesh.setRecombine(2, gmsh.model.getEntities(2)[-1][1])
+    gmsh.option.setNumber("Mesh.MeshSizeMax", h)
+    m._Set_PhysicalGroups()
+    m._Mesh_Generate(2, ElemType.TRI3)
+    return m._Mesh_Get_Meshes(N)
+
+
+def mesh_revolve_on_axis(N, layers=8):
+    """a square touching the axis turned by 360 degrees: the collapsed hexahedra on the axis are dropped, PRISM6 + HEXA8"""
+    return PartMesher(N).Mesh_Revolve(Domain(Point(0, 0), Point(2, 2), 1.0), [], (0, 0, 0), (0, 1, 0), 360, [layers], ElemType.HEXA8)
+
+
+def group_level(res, glob, parts, ident, label):
+    """every element group, with dense ownership maps (no set search): one owner per element, the rows of a part are the global
+    connectivity of its owned + ghost elements, ghosts of a rank = the elements of the other ranks touching a node the rank owns for the group"""
+    for gtype, gg in glob.dict_groupElem.items():
+        conn = np.asarray(gg.connect)
+        if len(conn) == 0:
+            continue
+        data = []
+        for p in parts:
+            gp = p.dict_groupElem.get(gtype)
+            if gp is None:
+                res.fail(f"group missing in a part group={gtype}", "a part does not hold the element group", ident)
+                return
+            data.append((gp, gp._Get_partitioned_data()))
+        n_own = np.zeros(len(conn), int)
+        owner_e = -np.ones(len(conn), int)
+        for k, (gp, (r, els, gh, nodes, _)) in enumerate(data):
+            np.add.at(n_own, np.asarray(els, int), 1)
+            owner_e[np.asarray(els, int)] = k
+        if (n_own > 1).any():
+            res.fail(f"element owned twice group={gtype}", f"{label}: elements {np.where(n_own > 1)[0][:5].tolist()} have two owners", ident)
+            continue
+        if (n_own < 1).any():
+            res.fail(f"element without owner group={gtype}", f"{label}: elements {np.where(n_own < 1)[0][:6].tolist()} belong to no part", ident)
+            continue
+        for k, (gp, (r, els, gh, nodes, _)) in enumerate(data):
+            res.case((label, str(gtype), len(parts), k, "ghosts"))
+            mine = np.zeros(glob.Nn, bool)
+            mine[np.asarray(nodes, int)] = True
+            want = np.where(mine[conn].any(axis=1) & (owner_e != k))[0]
+            got = np.sort(np.asarray(gh, int))
+            if not np.array_equal(want, got):
+                miss, extra = np.setdiff1d(want, got), np.setdiff1d(got, want)
+                res.fail(f"ghost layer group={gtype}", f"{label}, rank {r} (owns {len(els)} elements, {len(nodes)} nodes): {len(miss)} elements of other ranks touch an owned node but are not ghosts {miss[:6].tolist()}; "
+                                                      f"{len(extra)} ghosts touch no owned node {extra[:6].tolist()}", ident)
+                break
+            held = np.union1d(np.asarray(els, int), got)
+            if gp.Ne != len(held) or (gp.Ne and not np.array_equal(np.asarray(gp.connect), conn[held])):
+                res.fail(f"part connectivity group={gtype}", f"{label}, rank {r}: the rows of the part are not the global connectivity of its owned and ghost elements", ident)
+                break
+
+
+def part_level(res, glob, parts, ident, label, law=None, ranks=(), ghosts=True):
+    """the split seen from the PARTS, all the element types of the main dimension together (owned nodes of a part = part._Get_mpi_owned_nodes()):
+    every node used by an element of the main dimension has exactly one owner part; a part holds every element of the main dimension touching
+    a node it owns; the owned rows of K assembled on the part alone are the global rows.  Keys end with `label`."""
+    dim = glob.dim
+    main = [g for g in glob.Get_list_groupElem(dim) if g.Ne]
+    used = np.unique(np.concatenate([np.asarray(g.connect).ravel() for g in main]))
+    try:
+        owned = [np.asarray(p._Get_mpi_owned_nodes(), int) for p in parts]
+    except Exception as ex:  # noqa: BLE001
+        res.fail(f"owned nodes raise {label}", f"_Get_mpi_owned_nodes raises {type(ex).__name__}: {str(ex)[:150]}", ident)
+        return
+    cnt = np.zeros(glob.Nn, int)
+    for o in owned:
+        np.add.at(cnt, o, 1)
+    res.case((label, len(parts), "node owners"))
+    if (cnt[used] > 1).any():
+        res.fail(f"node owned by two parts {label}", f"nodes {used[cnt[used] > 1][:6].tolist()} are owned by several parts", ident)
+    if (cnt[used] < 1).any():
+        res.fail(f"node without owner {label}", f"nodes {used[cnt[used] < 1][:6].tolist()}, used by elements of dimension {dim}, are owned by no part (their rows belong to nobody)", ident)
+    if not ghosts:
+        return
+    incomplete = set()
+    for k, (p, o) in enumerate(zip(parts, owned)):
+        res.case((label, len(parts), k, "part ghosts"))
+        mine = np.zeros(glob.Nn, bool)
+        mine[o] = True
+        for g in main:
+            conn = np.asarray(g.connect)
+            gp = p.dict_groupElem.get(g.elemType)
+            if gp is None:
+                held = np.array([], int)
+            else:
+                _, els, gh, _, _ = gp._Get_partitioned_data()
+                held = np.union1d(np.asarray(els, int), np.asarray(gh, int))
+            need = np.where(mine[conn].any(axis=1))[0]
+            miss = np.setdiff1d(need, held)
+            if len(miss):
+                incomplete.add(k)
+                res.fail(f"ghost layer {label}", f"part {k} of {len(parts)}: {g.elemType} elements {miss[:6].tolist()} touch a node the part owns and are not held by the part", ident)
+    if law is None:
+        return
+    try:
+        Kg = Simulations.Elastic(glob, law).Get_K_C_M_F()[0]
+    except Exception as ex:  # noqa: BLE001
+        res.fail(f"assembly raises {label}", f"global mesh: {type(ex).__name__}: {str(ex)[:150]}", ident)
+        return
+    scale = np.abs(Kg).max()
+    for k in ranks:
+        o = owned[k]
+        if len(o) == 0:
+            continue
+        res.case((label, len(parts), k, "part rows"))
+        dofs = (o[:, None] * dim + np.arange(dim)).ravel()
+        try:
+            Kp = Simulations.Elastic(parts[k], law).Get_K_C_M_F()[0]
+        except Exception as ex:  # noqa: BLE001
+            res.fail(f"assembly raises {label}", f"part {k} of {len(parts)}: {type(ex).__name__}: {str(ex)[:150]}", ident)
+            continue
+        err = np.abs(dense_rows(Kp, dofs) - dense_rows(Kg, dofs)).max()
+        if not (err <= 1e-9 * scale):
+            key = f"ghost layer {label}" if k in incomplete else f"K rows differ on owned dofs {label}"
+            res.fail(key, f"part {k} of {len(parts)}: K assembled on the part differs from the global K on its owned rows by {err:.3g} (max |K| = {scale:.3g})", ident)
 
 
 def main():
@@ -175,19 +317,72 @@ def main():
                 dofs = (np.asarray(nodes)[:, None] * dim + np.arange(dim)).ravel()
                 res.case((et, N, int(r), "rows"))
                 scale = np.abs(Kg).max()
-                if np.abs(dense_rows(Kp, dofs) - dense_rows(Kg, dofs)).max() > 1e-9 * scale:
+                if not (np.abs(dense_rows(Kp, dofs) - dense_rows(Kg, dofs)).max() <= 1e-9 * scale):
                     res.fail(f"K rows differ on owned dofs elem={et}", f"rank {r}: K assembled on the part differs from the global K on its owned rows", ident)
-                if np.abs(dense_rows(Mp, dofs) - dense_rows(Mg, dofs)).max() > 1e-9 * np.abs(Mg).max():
+                if not (np.abs(dense_rows(Mp, dofs) - dense_rows(Mg, dofs)).max() <= 1e-9 * np.abs(Mg).max()):
                     res.fail(f"M rows differ on owned dofs elem={et}", f"rank {r}: M assembled on the part differs from the global M on its owned rows", ident)
-                if np.abs(Fp[dofs] - Fg[dofs]).max() > 1e-9 * (1 + np.abs(Fg).max()):
+                if not (np.abs(Fp[dofs] - Fg[dofs]).max() <= 1e-9 * (1 + np.abs(Fg).max())):
                     res.fail(f"F rows differ on owned dofs elem={et}", f"rank {r}: the load vector of the part differs from the global one on its owned rows", ident)
                 Ku = Kp @ ug
                 energy_sum += float(ug[dofs] @ Ku[dofs])
                 reaction_sum += Ku[dofs].reshape(-1, dim).sum(0)
-            if abs(energy_sum - Eg) > 1e-9 * (1 + abs(Eg)):
+            if not (abs(energy_sum - Eg) <= 1e-9 * (1 + abs(Eg))):
                 res.fail(f"owned-row energies do not add up elem={et}", f"Σ over parts of u_owned·(K_part u)_owned = {energy_sum}, global u·K u = {Eg}", ident)
-            if np.abs(reaction_sum - (Kg @ ug).reshape(-1, dim).sum(0)).max() > 1e-8 * (1 + np.abs(Kg @ ug).max()):
+            if not (np.abs(reaction_sum - (Kg @ ug).reshape(-1, dim).sum(0)).max() <= 1e-8 * (1 + np.abs(Kg @ ug).max())):
                 res.fail(f"owned-row reactions do not add up elem={et}", "Σ over parts of the owned rows of K u differs from the global sum", ident)
+
+    # ---------------- many elements, many parts: few parts of the quick rectangles own more than a handful of nodes ----------------
+    big = [("TRI3 square 10 x 10", mesh_big_tri, (0.3, 0.25, 0.22)[args.seed % 3], (64, 48 + args.seed % 7)),
+           ("QUAD4 organised square 10 x 10", mesh_big_quad, 0.25, (64,)),
+           ("TETRA4 cube 4 x 4 x 4", mesh_big_tetra, 0.45, (56 + args.seed % 5,))]
+    if thorough:
+        big.append(("TRI3 square 10 x 10", mesh_big_tri, 0.15, (128, 200)))
+    for name, mk, h, Ns in big:
+        try:
+            (glob,) = mk(1, h)
+        except Exception as ex:  # noqa: BLE001
+            res.fail("partition raises large mesh", f"{name}: {type(ex).__name__}: {str(ex)[:150]}", dict(mesh=name, h=h, Nproc=1))
+            continue
+        law = Models.Elastic.Isotropic(glob.dim, E=10.0, v=0.25, planeStress=True, thickness=0.5 if glob.dim == 2 else 1.0)
+        for N in Ns:
+            ident = dict(mesh=name, h=h, Nproc=N, Ne=int(glob.Ne), Nn=int(glob.Nn))
+            try:
+                parts = mk(N, h)
+            except Exception as ex:  # noqa: BLE001
+                res.fail("partition raises large mesh", f"{name}: {type(ex).__name__}: {str(ex)[:150]}", ident)
+                continue
+            res.case(("large", name, h, N))
+            res.count("large split")
+            if len(parts) != N:
+                res.fail("number of parts", f"{len(parts)} parts returned for Nproc = {N}", ident)
+                continue
+            group_level(res, glob, parts, ident, name)
+            part_level(res, glob, parts, ident, f"mesh={name}", law, sorted({rng.randint(0, N - 1) for _ in range(3)}))
+
+    # ---------------- meshes with several element types of the main dimension ----------------
+    for label, name, mk, Ns in (("mixed element types", "TRI3 square glued to a recombined square (QUAD4 + TRI3), h = 2.5", mesh_tri_glued_to_recombined, (2, 4)),
+                                ("mesh=revolve touching the axis", "Mesh_Revolve of Domain((0,0),(2,2),1.0) about the y-axis, 360 degrees, 8 layers, HEXA8 (PRISM6 + HEXA8)", mesh_revolve_on_axis, (3,))):
+        try:
+            (glob,) = mk(1)
+        except Exception as ex:  # noqa: BLE001
+            res.fail(f"partition raises {label}", f"{type(ex).__name__}: {str(ex)[:150]}", dict(mesh=name, Nproc=1))
+            continue
+        law = Models.Elastic.Isotropic(glob.dim, E=10.0, v=0.25, planeStress=True, thickness=0.5 if glob.dim == 2 else 1.0)
+        for N in Ns:
+            ident = dict(mesh=name, Nproc=N, Ne=int(glob.Ne), Nn=int(glob.Nn), types=[str(g.elemType) for g in glob.Get_list_groupElem(glob.dim)])
+            try:
+                parts = mk(N)
+            except Exception as ex:  # noqa: BLE001
+                res.fail(f"partition raises {label}", f"{type(ex).__name__}: {str(ex)[:150]}", ident)
+                continue
+            res.case(("several main types", label, N))
+            res.count("several main types")
+            if len(parts) != N:
+                res.fail("number of parts", f"{len(parts)} parts returned for Nproc = {N}", ident)
+                continue
+            group_level(res, glob, parts, ident, label)
+            # (the revolved mesh is used for the ownership of the nodes only)
+            part_level(res, glob, parts, ident, label, law, range(N), ghosts=label == "mixed element types")
 
     # ---------------- Mesh.Merge with a node mapping ----------------
     def tiles(et):
@@ -196,7 +391,27 @@ def main():
     def pieces(et, N):
         return list(build(et, N, 0.7))       # the parts of a split overlap in their ghost layers: nodes held by up to N parts
 
-    for name, mk in (("TRI3 | QUAD4 sharing an edge", lambda: (M.mesh_2d("TRI3", polygon=[(0, 0), (1, 0), (1, 1), (0, 1)], h=0.5), M.mesh_2d("QUAD4", polygon=[(1, 0), (3, 0), (3, 1), (1, 1)], h=0.5))),
+    def moved_copies(et, moves, first_last=False):
+        """a plate and copies of it moved as rigid bodies after meshing (Translate / Rotate): disjoint from the plate, or sharing exactly the nodes of an edge"""
+        plate = M.mesh_2d(et, a=1.0, b=1.0, h=0.25)
+        out = [plate]
+        for kind, val in moves:
+            c = plate.copy()
+            if kind == "dz":
+                c.Translate(dz=val)
+            elif kind == "dx":
+                c.Translate(dx=val)
+            else:
+                c.Rotate(val, (0, 0, 0), (1, 0, 0))     # about the edge y = 0 of the plate
+            out.append(c)
+        return out[::-1] if first_last else out
+
+    for name, mk in (("QUAD4 plate + copy moved by Translate(dz=0.5), no shared node", lambda: moved_copies("QUAD4", [("dz", 0.5)])),
+                     ("copy of a QUAD4 plate moved by Translate(dz=0.5) + the plate, no shared node", lambda: moved_copies("QUAD4", [("dz", 0.5)], True)),
+                     ("TRI6 plate + copies moved by dz=0.25 and dz=-0.5, no shared node", lambda: moved_copies("TRI6", [("dz", 0.25), ("dz", -0.5)])),
+                     ("TRI3 plate + copy turned by 90 deg about the shared edge y=0", lambda: moved_copies("TRI3", [("rot", 90.0)])),
+                     ("QUAD4 plate + copy moved by dx=1 (shared edge) + copy moved by dz=1e-3", lambda: moved_copies("QUAD4", [("dx", 1.0), ("dz", 1e-3)])),
+                     ("TRI3 | QUAD4 sharing an edge", lambda: (M.mesh_2d("TRI3", polygon=[(0, 0), (1, 0), (1, 1), (0, 1)], h=0.5), M.mesh_2d("QUAD4", polygon=[(1, 0), (3, 0), (3, 1), (1, 1)], h=0.5))),
                      ("two disjoint TRI6", lambda: (M.mesh_2d("TRI6", polygon=[(0, 0), (1, 0), (1, 1), (0, 1)], h=0.5), M.mesh_2d("TRI6", polygon=[(2, 0), (3, 0), (3, 1), (2, 1)], h=0.5))),
                      ("2 x 2 QUAD4 tiles (a corner shared by four meshes)", lambda: tiles("QUAD4")),
                      ("2 x 2 TRI6 tiles (a corner shared by four meshes)", lambda: tiles("TRI6")),
@@ -224,7 +439,7 @@ def main():
         bad = None
         for m, mp in zip(meshes, mapping):
             mp = np.asarray(mp)
-            if len(mp) != m.Nn or np.abs(merged.coord[mp] - m.coord).max() > 1e-10:
+            if len(mp) != m.Nn or not (np.abs(merged.coord[mp] - m.coord).max() <= 1e-10):
                 bad = "a node is not mapped onto a node with its coordinates"
                 break
             for t, g in m.dict_groupElem.items():
@@ -267,7 +482,7 @@ def main():
             meas = meshes[0].area
         elif "merged back" in name:
             meas = 8.0          # the 4 x 2 rectangle the parts were cut from
-        if bad is None and abs((merged.area if merged.dim == 2 else merged.volume) - meas) > 1e-9:
+        if bad is None and not (abs((merged.area if merged.dim == 2 else merged.volume) - meas) <= 1e-9):
             bad = f"measure of the merged mesh {(merged.area if merged.dim == 2 else merged.volume)} != sum of the measures {meas}"
         if bad:
             res.fail(f"merge bookkeeping: {name}", bad + f" (coincident nodes merged: {shared})", ident)
@@ -291,7 +506,7 @@ def main():
             continue
         want_Nn = ma.Nn + mb.Nn - (shared if expect_merge else 0)
         moved = max(float(np.abs(mg.coord[np.asarray(mp)] - m.coord).max()) for m, mp in zip((ma, mb), mp_))
-        if mg.Nn != want_Nn or moved > 1e-12:
+        if mg.Nn != want_Nn or not (moved <= 1e-12):
             res.fail(f"merge tolerance is not the documented absolute distance scale={Lsc} gap={gap}",
                      f"meshes of size {Lsc} whose interface nodes are {gap} apart (tolerance 1e-12): merged mesh has {mg.Nn} nodes, expected {want_Nn}; the mapping moves a node by {moved:.2e}", ident)
 
@@ -310,12 +525,12 @@ def main():
                 res.disagree("partition-bookkeeping", dict(ident, model=ans[:80]))
                 continue
             if model != real:
-                k = next(i for i in range(len(real)) if i >= len(model) or model[i] != real[i])
+                k = next(i for i in range(len(real)) if not (i < len(model)) or model[i] != real[i])
                 res.disagree("partition-bookkeeping", dict(ident, rank=k, model=str(model[k] if k < len(model) else None)[:150], real=str(real[k])[:150]))
     res.search_note = "every split is a true partition with complete ghost layers, row-complete systems and additive owned-row sums"
     res.write("rectangle / extruded-box meshes of 2D / 3D element types split by gmsh into 2, 3, a random 4-7 (and up to 16) parts in a single process; every element group of every part: ownership of elements and nodes, "
-              "ghost layer, connectivity, coordinates, reproducibility; K, M, F of an elastic simulation on each part vs the global ones on the owned rows, energy and reaction sums; Mesh.Merge with return_mapping on "
-              "meshes sharing an edge, disjoint, three in a row, 2 x 2 tiles, three coincident copies and the overlapping parts of a split merged back (nodes held by 3 and more inputs); distinct = distinct (element type, part count, rank, check)")
+              "ghost layer, connectivity, coordinates, reproducibility; squares / cubes of 2000-4000 elements split in 48-64 parts (dense ownership maps, part-level owners and ghost layers, K rows of three parts); a TRI3 square glued to a recombined square split in 2 and 4 and a revolved square touching the axis split in 3 (part level: one owner per node, every element touching an owned node held, K rows); K, M, F of an elastic simulation on each part vs the global ones on the owned rows, energy and reaction sums; Mesh.Merge with return_mapping on "
+              "meshes sharing an edge, disjoint, plates and rigidly moved copies of them (out of plane, turned about a shared edge), three in a row, 2 x 2 tiles, three coincident copies and the overlapping parts of a split merged back (nodes held by 3 and more inputs); distinct = distinct (element type, part count, rank, check)")
 
 
 if __name__ == "__main__":
